@@ -126,7 +126,20 @@ impl<F: AsyncFileSystem + Sync> Server<F> {
     ) -> Result<usize> {
         let in_header = r.read_obj().map_err(Error::DecodeMessage)?;
         let mut ctx = SrvContext::<F, S>::new(in_header, r, w);
-        self.remap_ctx_ids(&mut ctx)?;
+        if let Err(e) = self.remap_ctx_ids(&mut ctx) {
+            if ctx.in_header.opcode == Opcode::Forget as u32
+                || ctx.in_header.opcode == Opcode::BatchForget as u32
+            {
+                // Forget and batch-forget do not require reply.
+                return Err(e);
+            }
+            // The caller ids can not be translated: the request is not served, but the
+            // client still waits for an answer to it.
+            error!("fuse: {}", e);
+            return ctx
+                .async_do_reply_error(io::Error::from_raw_os_error(libc::EOVERFLOW), true)
+                .await;
+        }
         if ctx.in_header.len > (MAX_BUFFER_SIZE + BUFFER_HEADER_SIZE) {
             if ctx.in_header.opcode == Opcode::Forget as u32
                 || ctx.in_header.opcode == Opcode::BatchForget as u32
